@@ -186,6 +186,15 @@ def run_cloud(case, ctx):
         tr = PointsToMST(k, exclude_soma=excl, sort=sort)
     if case.get("far"):
         ctx.cls("far-from-origin")
+    if case.get("n", 0) % 4 == 0:
+        # the same object first refused an unusable argument (a cloud of the wrong shape, an empty cloud); the caller caught
+        # the error and goes on
+        for bad in (np.zeros((5, 2)), np.zeros((0, 3)), np.zeros(7)):
+            try:
+                tr(bad)
+            except Exception:  # noqa
+                pass
+        ctx.cls("transform-object-used-after-a-refused-call")
     if case.get("reused"):
         # the same object on a small cloud first (three points), then on this one
         small = np.array([[0.0, 0.0, 0.0], [1.0, 0.25, 0.0], [0.0, 2.0, 0.5], [3.0, 3.0, 3.0]])
@@ -378,5 +387,5 @@ SUBCHECKS = [
                   "bf-clipped": 50, "sort": 300, "nosort": 300, "dtype:float32": 200, "dtype:int32": 200, "dtype:int64": 200, "far-from-origin": 300,
                   "transform-object-reused": 300, "limit-through-deprecated-keyword": 60,
                   "same-object-same-cloud-another-soma-before": 150, "column-names-given-per-call": 300,
-                  "soma-given-as-whole-numbers-beside-a-float-cloud": 300}),
+                  "soma-given-as-whole-numbers-beside-a-float-cloud": 300, "transform-object-used-after-a-refused-call": 500}),
 ]
